@@ -4,6 +4,7 @@
 -/
 import Driver.Wire
 import KodaModel.Cache
+import KodaModel.Render
 
 open Lean (Json)
 open Koda Koda.Wire
@@ -102,6 +103,25 @@ def handleProc (j : Json) : D Json := do
   | .ok y => pure (Json.mkObj [("ok", valJ y)])
   | .error e => pure (Json.mkObj [("raised", exnJ e)])
 
+partial def serJ : Ser → Json
+  | .msg => "s"
+  | .num n => n
+  | .mark => "M"
+  | .list xs => Json.arr (xs.map serJ).toArray
+  | .dict es => Json.mkObj [("d", Json.arr (es.map (fun p => Json.arr #[(p.1 : Json), serJ p.2])).toArray)]
+
+def handleRender (j : Json) : D Json := do
+  let inv ← getInv (← fld j "inv")
+  let up ← natList j "userPids"
+  let rv ← natList j "recordVids"
+  let r := match ← str j "next" with
+    | "marker" => render up rv (fun _ => Ser.mark) inv
+    | _ => renderFull up rv inv
+  let lines := messageLines inv
+  match r with
+  | .ok s => pure (Json.mkObj [("ok", serJ s), ("lines", lines)])
+  | .error e => pure (Json.mkObj [("raised", exnJ e), ("lines", lines)])
+
 def handle (line : String) : Json :=
   match Json.parse line with
   | .error e => Json.mkObj [("error", "bad-json"), ("detail", e)]
@@ -111,6 +131,7 @@ def handle (line : String) : Json :=
       | "run" => handleRun j
       | "cache" => handleCache j
       | "pred" => handlePred j
+      | "render" => handleRender j
       | "proc" => handleProc j
       | "ping" => pure (Json.mkObj [("pong", true)])
       | op => throw s!"bad-op {op}"
